@@ -164,7 +164,10 @@ M('c12-setitem-list-copy', 'C12', 'C12.R1', FUN, "    container[key] = copy.deep
 M('c12-shortop-no-deepcopy', 'C12', 'C12.R1', AST,
   "        value = copy.deepcopy(self.value.eval(state))", "        value = self.value.eval(state)")
 M('c12-setwithop-no-deepcopy', 'C12', 'C12.R1', FUN,
-  "    key = _key_cast(container, key)\n    value = copy.deepcopy(value)\n", "    key = _key_cast(container, key)\n")
+  "    key = _key_cast(container, key)\n    result = value\n    value = copy.deepcopy(value)\n", "    key = _key_cast(container, key)\n    result = value\n")
+M('c12-setwithop-returns-spliced-copy', 'C12', 'C12.R2', FUN, "    return result\n\n\ndef _map", "    return value\n\n\ndef _map")     # K14 re-introduced
+M('c12-setitem-returns-stored-copy', 'C12', 'C12.R2', FUN, "    container[key] = copy.deepcopy(value)\n    return value",
+  "    value = copy.deepcopy(value)\n    container[key] = value\n    return value")
 M('c12-assign-copy-one-branch', 'C12', 'C12.R1', AST, ASG,
   "        state.names[self.name] = copy.deepcopy(value) if isinstance(value, dict) else value")
 M('c12-setitem-second-store', 'C12', None, FUN, "    container[key] = copy.deepcopy(value)\n    return value",
@@ -317,7 +320,7 @@ M('c16-getitem-keyerror-only', 'C16', 'C16.R5', FUN,
 M('c16-pop-unguarded', 'C16', 'C16.R5', FUN,
   "    try:\n        return arr.pop(int(i)) if i is not None else arr.pop()\n    except IndexError as e:\n        raise ParserError(str(e))",
   "    return arr.pop(int(i)) if i is not None else arr.pop()")
-M('c16-setwithop-unguarded', 'C16', 'C16.R5', FUN, "    except LookupError:\n        raise ParserError(f'Key error \\'{key}\\'')\n\n    return value", "    finally:\n        pass\n\n    return value")
+M('c16-setwithop-unguarded', 'C16', 'C16.R5', FUN, "    except LookupError:\n        raise ParserError(f'Key error \\'{key}\\'')\n\n    return result", "    finally:\n        pass\n\n    return result")
 M('c16-sizecap-valueerror', 'C16', 'C16.R6', FUN, "        raise ParserError(f'Array size overflow: {MAX_ARRAY_SIZE}')", "        raise ValueError(f'Array size overflow: {MAX_ARRAY_SIZE}')")
 M('c16-ops-limit-systemexit', 'C16', None, AST, "            raise OpsExecutionLimitExceededError(f'Ops", "            raise SystemExit(f'Ops")
 M('c16-parsererror-baseexception', 'C16', 'C16.R7', 'smartquery/exceptions.py', "class ParserError(Exception):", "class ParserError(BaseException):")
@@ -384,7 +387,7 @@ M('c14-index-rounds', 'C14', None, FUN, "    if isinstance(key, Decimal_):\n    
 M('c14-insert-rounds', 'C14', 'C14.R2', FUN, "    return arr.insert(int(i), v)", "    return arr.insert(round(i), v)")
 M('c14-pop-floor', 'C14', 'C14.R2', FUN, "        return arr.pop(int(i)) if i is not None else arr.pop()", "        return arr.pop(math.floor(i)) if i is not None else arr.pop()")
 M('c14-getitem-unguarded', 'C14', 'C14.R3', FUN, "    try:\n        return container[key]\n    except LookupError:\n        raise ParserError(f'Key error \\'{key}\\'')", "    return container[key]")
-M('c14-setwithop-raw-key', 'C14', 'C14.R1', FUN, "    _check_array_size(container)\n\n    key = _key_cast(container, key)\n    value = copy.deepcopy(value)", "    _check_array_size(container)\n\n    value = copy.deepcopy(value)")
+M('c14-setwithop-raw-key', 'C14', 'C14.R1', FUN, "    _check_array_size(container)\n\n    key = _key_cast(container, key)\n    result = value\n    value = copy.deepcopy(value)", "    _check_array_size(container)\n\n    result = value\n    value = copy.deepcopy(value)")
 M('c14-getitem-caches-into-container', 'C14', 'C14.R3', FUN, "    key = _key_cast(container, key)\n\n    try:\n        return container[key]", "    key = _key_cast(container, key)\n    if isinstance(container, dict):\n        container.setdefault('_last', key)\n\n    try:\n        return container[key]")
 
 B('c14-inline-cast', 'C14', FUN, "    key = _key_cast(container, key)\n    return container.get(key, default)",
@@ -752,7 +755,8 @@ P('C20-C', 'C20', 'C20.R1'); P('C20-D', 'C20', 'C20.R2')
 ALL_PROPS = ['C%02d' % i for i in range(1, 21)]
 for _r in ('R1-1', 'R1-2', 'R1-3', 'R1-4', 'R2-1', 'R2-2', 'R2-3', 'R2-4', 'R3-1', 'R3-2', 'R3-3', 'R3-4', 'R4-1', 'R4-2', 'R4-3', 'R4-4',
            'R6-1', 'R6-2', 'R6-3', 'R6-4', 'R7-1', 'R7-2', 'R7-3', 'R7-4', 'R8-1', 'R8-2', 'R8-3', 'R8-4', 'R9-1', 'R9-2', 'R9-3', 'R9-4',
-           'R10-1', 'R10-2', 'R10-3', 'R10-4', 'R11-1', 'R11-2', 'R11-3', 'R11-4', 'R12-1', 'R12-2', 'R12-3', 'R12-4', 'R13-1', 'R13-2', 'R13-3', 'R13-4'):
+           'R10-1', 'R10-2', 'R10-3', 'R10-4', 'R11-1', 'R11-2', 'R11-3', 'R11-4', 'R12-1', 'R12-2', 'R12-3', 'R12-4', 'R13-1', 'R13-2', 'R13-3', 'R13-4',
+           'R14-1', 'R14-2', 'R14-3', 'R14-4', 'R15-1', 'R15-2', 'R15-3', 'R15-4', 'R16-1', 'R16-2', 'R16-3', 'R16-4', 'R17-1', 'R17-2', 'R17-3', 'R17-4'):
     CORPUS.append({'id': 'S/' + _r + '-silent', 'props': ALL_PROPS, 'rule': None, 'expect': 'silent', 'edits': [],
                    'patch': 'seeded_benign/%s/patch.diff' % _r, 'tolerate_rekeyed': True})
 
@@ -808,4 +812,25 @@ P('C14-G', 'C14', 'C14.R1'); P('C14-H', 'C14', 'C14.R5')
 P('C15-G', 'C15', 'C15.R5'); P('C15-H', 'C15', 'C15.R1')
 P('C19-G', 'C19', 'C19.R1'); P('C19-H', 'C19', 'C19.R3')
 P('C20-G', 'C20', 'C20.R1'); P('C20-H', 'C20', 'C20.R2')
+# round 6 (one change outside functions.py / ast_ops.py, one anywhere)
+P('C01-I', 'C01', 'C01.R4'); P('C01-J', 'C01', 'C01.R8')
+P('C02-I', 'C02', 'C02.R4'); P('C02-J', 'C02', 'C02.R5')
+P('C03-I', 'C03', 'C03.R5'); P('C03-J', 'C03', 'C03.R1')
+P('C04-I', 'C04', 'C04.R4'); P('C04-J', 'C04', 'C04.R1')
+P('C05-I', 'C05', 'C05.R3'); P('C05-J', 'C05', 'C05.R1')
+P('C06-I', 'C06', 'C06.R9'); P('C06-J', 'C06', 'C06.R8')
+P('C07-I', 'C06', 'C06.R9'); P('C07-J', 'C07', 'C07.R1')
+P('C08-I', 'C08', 'C08.R1'); P('C08-J', 'C08', 'C08.R3')
+P('C09-I', 'C09', 'C09.R2'); P('C09-J', 'C09', 'C09.R1')
+P('C10-I', 'C10', 'C10.R2'); P('C10-J', 'C10', 'C10.R6')
+P('C11-I', 'C11', 'C11.R2'); P('C11-J', 'C11', 'C11.R1')
+P('C12-I', 'C17', 'C17.R6'); P('C12-J', 'C12', 'C12.R2')
+P('C13-I', 'C10', 'C10.R3'); P('C13-J', 'C13', 'C13.R1')
+P('C14-I', 'C17', 'C17.R5'); P('C14-J', 'C14', 'C14.R1')
+P('C15-I', 'C15', 'C15.R1'); P('C15-J', 'C06', 'C06.R8')
+P('C16-I', 'C11', 'C11.R2'); P('C16-J', 'C06', 'C06.R8')
+P('C17-I', 'C17', 'C17.R3'); P('C17-J', 'C17', 'C17.R2')
+P('C18-I', 'C18', 'C18.R1'); P('C18-J', 'C16', 'C16.R2')
+P('C19-I', 'C04', 'C04.R3'); P('C19-J', 'C19', 'C19.R1')
+P('C20-I', 'C20', 'C20.R1'); P('C20-J', 'C20', 'C20.R1')
 B('c16-finally-guarded-delete', 'C16', SQP, "            return ast.eval(state)\n", "            try:\n                return ast.eval(state)\n            finally:\n                if '__tmp__' in scoped_names.scopes[-1]:\n                    del scoped_names.scopes[-1]['__tmp__']\n")
